@@ -5,7 +5,6 @@ import (
 	"strconv"
 	"strings"
 
-	"grol.io/grol/ast"
 	"grol.io/grol/eval"
 	"grol.io/grol/lexer"
 	"grol.io/grol/parser"
@@ -15,12 +14,15 @@ import (
 // variable of a body (a parameter, the variable of a counted loop) lives in a register, and the rewritten body.
 //
 //	input: <noReg 0|1>;<registers already in use>;<hex name>:<isInt 0|1>,...;<hex text of the body>
-//	obs:   <ast of the body> @@ <per name: e<eligible>o<ok>c<count>i<idx>k<kept>>/... @@ <ast of the final body>
+//	obs:   <ast of the body> @@ <per name: k<kept>i<idx>>/... @@ <ast of the final body>      (or P / E)
 //
-// The real code is eval.VerifSetupRegisters (registerEligible + setupRegister + what extendFunctionEnv /
-// evalForInteger do with the answer) on a fresh environment; the model is Grol.RegRewrite.useRegisters.
-// A register node is dumped as (reg <hex name> <idx>).  The count is reported only for a successful rewrite
-// (setupRegister's callers ignore it otherwise).
+// The real code is (*State).extendFunctionEnv itself, driven by the hook eval.VerifSetupRegisters: a function whose
+// parameters are <registers in use> unused integer parameters followed by the candidates, with the body as its body;
+// kept/idx are read back from the register count of the environment it returns, the final body is the one it returns.
+// The model is Grol.RegRewrite.useRegisters.  A register node is dumped as (reg <hex name> <idx>); the number of
+// replaced identifiers is the number of these nodes.  The same decision at the loop site (evalForInteger) is not
+// reachable without running the loop: its eligibility expression is pinned as source text (Grol/Generated/RegFacts.lean)
+// and its effect is what the eval suite compares.
 
 func init() {
 	suites["regrewrite"] = suite{gen: regRewriteGen, run: regRewriteRun}
@@ -47,24 +49,23 @@ func regRewriteRun(input string) string {
 		}
 	}
 	p := parser.New(lexer.New(unhx(parts[3])))
-	var body ast.Node = p.ParseProgram()
+	body := p.ParseProgram()
 	if len(p.Errors()) > 0 {
 		return "P"
 	}
 	sb := &strings.Builder{}
 	dumpNode(sb, body)
 	before := sb.String()
-	newBody, res := eval.VerifSetupRegisters(noReg, used, names, isInt, body)
+	newBody, res, oerr := eval.VerifSetupRegisters(noReg, used, names, isInt, body)
+	if oerr != nil {
+		return "E" // the call itself is refused (a parameter named like an extension, a constant bound twice)
+	}
 	sb.WriteString(" @@ ")
 	for i, r := range res {
 		if i > 0 {
 			sb.WriteByte('/')
 		}
-		count := 0
-		if r.Ok {
-			count = r.Count
-		}
-		sb.WriteString("e" + b2s(r.Eligible) + "o" + b2s(r.Ok) + "c" + strconv.Itoa(count) + "i" + strconv.Itoa(r.Idx) + "k" + b2s(r.Kept))
+		sb.WriteString("k" + b2s(r.Kept) + "i" + strconv.Itoa(r.Idx))
 	}
 	sb.WriteString(" @@ ")
 	dumpNode(sb, newBody)
